@@ -103,7 +103,7 @@ Example C02_example :
 Proof. vm_compute. auto. Qed.
 
 (* ======================================================================= arm64 (Proofs/A64Grammar.v)
-   Prologue grammar:  [pacibsp] ; (stp xa, xb, [sp, #-n]! | stp xa, xb, [sp, #n] | sub sp, sp, #n)* ; add x29, sp, #n
+   Prologue grammar:  [pacibsp] ; (stp xa, xb, [sp, #-n]! | stp xa, xb, [sp, #n] | sub sp, sp, #n)* ; add x29, sp, #n     (xa, xb among x19..x30)
    Epilogue grammar:  (add sp, sp, #n | ldp xa, xb, [sp, #n] | ldp xa, xb, [sp], #n)* ; (ret | retab | b target)
    with the real A64 encodings (A64Enc.v; bit-field facts by enumeration of the operand space). *)
 
